@@ -10,8 +10,146 @@ package txpool
 //@ ghost func InMax(h *maxPriorityTxHeap, t *mainQueueTransaction) bool { return 0 <= t.maxHeapIndex && t.maxHeapIndex < len(*h) && (*h)[t.maxHeapIndex] == t }
 //@ ghost func InMin(h *minPriorityTxHeap, t *mainQueueTransaction) bool { return 0 <= t.minHeapIndex && t.minHeapIndex < len(*h) && (*h)[t.minHeapIndex] == t }
 //@ ghost func InSeq(h *seqNumTxHeap, t *mainQueueTransaction) bool { return 0 <= t.seqHeapIndex && t.seqHeapIndex < len(*h) && (*h)[t.seqHeapIndex] == t }
-//@ ghost func ExactSeq(h *seqNumTxHeap) bool { return forall i int :: 0 <= i && i < len(*h) ==> (*h)[i] != nil && (*h)[i].seqHeapIndex == i }
 //@ ghost func Pending(t *mainQueueTransaction) bool { return t.maxHeapIndex != -1 }
+
+
+// ---- maxPriorityTxHeap: the heap.Interface methods (container/heap is modelled through them) ----
+
+//@ ghost func InMaxS(h maxPriorityTxHeap, t *mainQueueTransaction) bool { return 0 <= t.maxHeapIndex && t.maxHeapIndex < len(h) && h[t.maxHeapIndex] == t }
+//@ ghost func ExactMaxS(h maxPriorityTxHeap) bool { return forall i int :: 0 <= i && i < len(h) ==> h[i] != nil && h[i].maxHeapIndex == i }
+//@ ghost func ExactMax(h *maxPriorityTxHeap) bool { return ExactMaxS(*h) }
+
+//@ func maxPriorityTxHeap.Len
+//@   props C20
+//@   modifies nothing
+//@   ensures result == len(h)
+
+//@ func maxPriorityTxHeap.Less
+//@   props C20
+//@   requires 0 <= i && i < len(h) && 0 <= j && j < len(h)
+//@   requires ExactMaxS(h)
+//@   modifies nothing
+//@   ensures result == (h[i].priority > h[j].priority)
+
+//@ func maxPriorityTxHeap.Swap
+//@   props C20
+//@   requires 0 <= i && i < len(h) && 0 <= j && j < len(h)
+//@   requires ExactMaxS(h)
+//@   modifies h, anyOf(h[0].maxHeapIndex)
+//@   ensures h[i] == old(h[j]) && h[j] == old(h[i])
+//@   ensures forall k int :: 0 <= k && k < len(h) && k != i && k != j ==> h[k] == old(h[k])
+//@   stable ExactMaxS(h)
+//@   stable forall t TxT :: InMaxS(h, t) == old(InMaxS(h, t))
+//@   stable forall t TxT :: !old(InMaxS(h, t)) ==> t.maxHeapIndex == old(t.maxHeapIndex)
+//@   note the stable clauses summarise ANY number of swaps (closure under composition is checked): the elements keep exact index fields, membership is unchanged, transactions outside the heap are untouched
+
+//@ func maxPriorityTxHeap.Push
+//@   props C20
+//@   requires typeIs[*mainQueueTransaction](x) && ExactMax(h) && !InMax(h, x.(*mainQueueTransaction))
+//@   modifies *h, anyOf(x.(*mainQueueTransaction).maxHeapIndex)
+//@   ensures len(*h) == old(len(*h)) + 1 && ExactMax(h) && InMax(h, x.(*mainQueueTransaction)) && x.(*mainQueueTransaction).maxHeapIndex == old(len(*h))
+//@   ensures arrOf(*h) == old(arrOf(*h)) || fresh(arrOf(*h))
+//@   ensures forall t TxT :: t != x.(*mainQueueTransaction) ==> t.maxHeapIndex == old(t.maxHeapIndex) && InMax(h, t) == old(InMax(h, t))
+
+//@ func maxPriorityTxHeap.Pop
+//@   props C20
+//@   requires len(*h) >= 1 && ExactMax(h)
+//@   modifies *h, anyOf((*h)[0].maxHeapIndex)
+//@   ensures len(*h) == old(len(*h)) - 1 && ExactMax(h) && arrOf(*h) == old(arrOf(*h))
+//@   ensures result.(*mainQueueTransaction) == old((*h)[len(*h)-1]) && result.(*mainQueueTransaction).maxHeapIndex == -1
+//@   ensures forall t TxT :: t != old((*h)[len(*h)-1]) ==> t.maxHeapIndex == old(t.maxHeapIndex) && InMax(h, t) == old(InMax(h, t))
+
+// ---- minPriorityTxHeap: the heap.Interface methods (container/heap is modelled through them) ----
+
+//@ ghost func InMinS(h minPriorityTxHeap, t *mainQueueTransaction) bool { return 0 <= t.minHeapIndex && t.minHeapIndex < len(h) && h[t.minHeapIndex] == t }
+//@ ghost func ExactMinS(h minPriorityTxHeap) bool { return forall i int :: 0 <= i && i < len(h) ==> h[i] != nil && h[i].minHeapIndex == i }
+//@ ghost func ExactMin(h *minPriorityTxHeap) bool { return ExactMinS(*h) }
+
+//@ func minPriorityTxHeap.Len
+//@   props C20
+//@   modifies nothing
+//@   ensures result == len(h)
+
+//@ func minPriorityTxHeap.Less
+//@   props C20
+//@   requires 0 <= i && i < len(h) && 0 <= j && j < len(h)
+//@   requires ExactMinS(h)
+//@   modifies nothing
+//@   ensures result == (h[i].priority < h[j].priority)
+
+//@ func minPriorityTxHeap.Swap
+//@   props C20
+//@   requires 0 <= i && i < len(h) && 0 <= j && j < len(h)
+//@   requires ExactMinS(h)
+//@   modifies h, anyOf(h[0].minHeapIndex)
+//@   ensures h[i] == old(h[j]) && h[j] == old(h[i])
+//@   ensures forall k int :: 0 <= k && k < len(h) && k != i && k != j ==> h[k] == old(h[k])
+//@   stable ExactMinS(h)
+//@   stable forall t TxT :: InMinS(h, t) == old(InMinS(h, t))
+//@   stable forall t TxT :: !old(InMinS(h, t)) ==> t.minHeapIndex == old(t.minHeapIndex)
+//@   note the stable clauses summarise ANY number of swaps (closure under composition is checked): the elements keep exact index fields, membership is unchanged, transactions outside the heap are untouched
+
+//@ func minPriorityTxHeap.Push
+//@   props C20
+//@   requires typeIs[*mainQueueTransaction](x) && ExactMin(h) && !InMin(h, x.(*mainQueueTransaction))
+//@   modifies *h, anyOf(x.(*mainQueueTransaction).minHeapIndex)
+//@   ensures len(*h) == old(len(*h)) + 1 && ExactMin(h) && InMin(h, x.(*mainQueueTransaction)) && x.(*mainQueueTransaction).minHeapIndex == old(len(*h))
+//@   ensures arrOf(*h) == old(arrOf(*h)) || fresh(arrOf(*h))
+//@   ensures forall t TxT :: t != x.(*mainQueueTransaction) ==> t.minHeapIndex == old(t.minHeapIndex) && InMin(h, t) == old(InMin(h, t))
+
+//@ func minPriorityTxHeap.Pop
+//@   props C20
+//@   requires len(*h) >= 1 && ExactMin(h)
+//@   modifies *h, anyOf((*h)[0].minHeapIndex)
+//@   ensures len(*h) == old(len(*h)) - 1 && ExactMin(h) && arrOf(*h) == old(arrOf(*h))
+//@   ensures result.(*mainQueueTransaction) == old((*h)[len(*h)-1]) && result.(*mainQueueTransaction).minHeapIndex == -1
+//@   ensures forall t TxT :: t != old((*h)[len(*h)-1]) ==> t.minHeapIndex == old(t.minHeapIndex) && InMin(h, t) == old(InMin(h, t))
+
+// ---- seqNumTxHeap: the heap.Interface methods (container/heap is modelled through them) ----
+
+//@ ghost func InSeqS(h seqNumTxHeap, t *mainQueueTransaction) bool { return 0 <= t.seqHeapIndex && t.seqHeapIndex < len(h) && h[t.seqHeapIndex] == t }
+//@ ghost func ExactSeqS(h seqNumTxHeap) bool { return forall i int :: 0 <= i && i < len(h) ==> h[i] != nil && h[i].seqHeapIndex == i }
+//@ ghost func ExactSeq(h *seqNumTxHeap) bool { return ExactSeqS(*h) }
+
+//@ func seqNumTxHeap.Len
+//@   props C20
+//@   modifies nothing
+//@   ensures result == len(h)
+
+//@ func seqNumTxHeap.Less
+//@   props C20
+//@   requires 0 <= i && i < len(h) && 0 <= j && j < len(h)
+//@   requires ExactSeqS(h)
+//@   modifies nothing
+//@   ensures result == (h[i].seq < h[j].seq)
+
+//@ func seqNumTxHeap.Swap
+//@   props C20
+//@   requires 0 <= i && i < len(h) && 0 <= j && j < len(h)
+//@   requires ExactSeqS(h)
+//@   modifies h, anyOf(h[0].seqHeapIndex)
+//@   ensures h[i] == old(h[j]) && h[j] == old(h[i])
+//@   ensures forall k int :: 0 <= k && k < len(h) && k != i && k != j ==> h[k] == old(h[k])
+//@   stable ExactSeqS(h)
+//@   stable forall t TxT :: InSeqS(h, t) == old(InSeqS(h, t))
+//@   stable forall t TxT :: !old(InSeqS(h, t)) ==> t.seqHeapIndex == old(t.seqHeapIndex)
+//@   note the stable clauses summarise ANY number of swaps (closure under composition is checked): the elements keep exact index fields, membership is unchanged, transactions outside the heap are untouched
+
+//@ func seqNumTxHeap.Push
+//@   props C20
+//@   requires typeIs[*mainQueueTransaction](x) && ExactSeq(h) && !InSeq(h, x.(*mainQueueTransaction))
+//@   modifies *h, anyOf(x.(*mainQueueTransaction).seqHeapIndex)
+//@   ensures len(*h) == old(len(*h)) + 1 && ExactSeq(h) && InSeq(h, x.(*mainQueueTransaction)) && x.(*mainQueueTransaction).seqHeapIndex == old(len(*h))
+//@   ensures arrOf(*h) == old(arrOf(*h)) || fresh(arrOf(*h))
+//@   ensures forall t TxT :: t != x.(*mainQueueTransaction) ==> t.seqHeapIndex == old(t.seqHeapIndex) && InSeq(h, t) == old(InSeq(h, t))
+
+//@ func seqNumTxHeap.Pop
+//@   props C20
+//@   requires len(*h) >= 1 && ExactSeq(h)
+//@   modifies *h, anyOf((*h)[0].seqHeapIndex)
+//@   ensures len(*h) == old(len(*h)) - 1 && ExactSeq(h) && arrOf(*h) == old(arrOf(*h))
+//@   ensures result.(*mainQueueTransaction) == old((*h)[len(*h)-1]) && result.(*mainQueueTransaction).seqHeapIndex == -1
+//@   ensures forall t TxT :: t != old((*h)[len(*h)-1]) ==> t.seqHeapIndex == old(t.seqHeapIndex) && InSeq(h, t) == old(InSeq(h, t))
 
 // ---- max heap wrappers ----
 
@@ -23,29 +161,35 @@ package txpool
 //@   ensures !result1 ==> result0 == nil
 
 //@ func maxPriorityTxHeap.push
-//@   trusted
+//@   props C20
 //@   ensures arrOf(*h) == old(arrOf(*h)) || fresh(arrOf(*h))
 //@   requires tx != nil && !Pending(tx)
 //@   modifies *h, anyOf(tx.maxHeapIndex)
 //@   ensures len(*h) == old(len(*h)) + 1 && InMax(h, tx)
 //@   ensures forall t TxT :: t != tx ==> (Pending(t) == old(Pending(t))) && (old(InMax(h, t)) ==> InMax(h, t))
 //@   note container/heap.Push with the Swap/Push methods of this type keeps every element's index field exact
+//@   requires ExactMax(h)
+//@   ensures ExactMax(h)
 
 //@ func maxPriorityTxHeap.remove
-//@   trusted
+//@   props C20
 //@   ensures arrOf(*h) == old(arrOf(*h))
 //@   requires tx != nil && InMax(h, tx)
 //@   modifies *h, anyOf(tx.maxHeapIndex)
 //@   ensures len(*h) == old(len(*h)) - 1 && tx.maxHeapIndex == -1
 //@   ensures forall t TxT :: t != tx ==> (Pending(t) == old(Pending(t))) && (old(InMax(h, t)) ==> InMax(h, t))
+//@   requires ExactMax(h)
+//@   ensures ExactMax(h)
 
 //@ func maxPriorityTxHeap.replace
-//@   trusted
+//@   props C20
 //@   ensures arrOf(*h) == old(arrOf(*h))
 //@   requires new != nil && old != nil && new != old && InMax(h, old) && !Pending(new)
 //@   modifies *h, anyOf(old.maxHeapIndex)
 //@   ensures len(*h) == old(len(*h)) && old.maxHeapIndex == -1 && InMax(h, new)
 //@   ensures forall t TxT :: t != new && t != old ==> (Pending(t) == old(Pending(t))) && (old(InMax(h, t)) ==> InMax(h, t))
+//@   requires ExactMax(h)
+//@   ensures ExactMax(h)
 
 // ---- min heap wrappers ----
 
@@ -56,28 +200,36 @@ package txpool
 //@   ensures result1 ==> result0 == (*h)[0]
 
 //@ func minPriorityTxHeap.push
-//@   trusted
+//@   props C20
 //@   ensures arrOf(*h) == old(arrOf(*h)) || fresh(arrOf(*h))
 //@   requires tx != nil
 //@   modifies *h, anyOf(tx.minHeapIndex)
 //@   ensures len(*h) == old(len(*h)) + 1 && InMin(h, tx)
 //@   ensures forall t TxT :: t != tx ==> (old(InMin(h, t)) ==> InMin(h, t))
+//@   requires ExactMin(h)
+//@   ensures ExactMin(h)
+//@   requires !InMin(h, tx)
 
 //@ func minPriorityTxHeap.remove
-//@   trusted
+//@   props C20
 //@   ensures arrOf(*h) == old(arrOf(*h))
 //@   requires tx != nil && InMin(h, tx)
 //@   modifies *h, anyOf(tx.minHeapIndex)
 //@   ensures len(*h) == old(len(*h)) - 1 && tx.minHeapIndex == -1
 //@   ensures forall t TxT :: t != tx ==> (old(InMin(h, t)) ==> InMin(h, t))
+//@   requires ExactMin(h)
+//@   ensures ExactMin(h)
 
 //@ func minPriorityTxHeap.replace
-//@   trusted
+//@   props C20
 //@   ensures arrOf(*h) == old(arrOf(*h))
 //@   requires new != nil && old != nil && new != old && InMin(h, old)
 //@   modifies *h, anyOf(old.minHeapIndex)
 //@   ensures len(*h) == old(len(*h)) && old.minHeapIndex == -1 && InMin(h, new)
 //@   ensures forall t TxT :: t != new && t != old ==> (old(InMin(h, t)) ==> InMin(h, t))
+//@   requires ExactMin(h)
+//@   ensures ExactMin(h)
+//@   requires !InMin(h, new)
 
 // ---- sequence heap wrappers ----
 
@@ -88,32 +240,37 @@ package txpool
 //@   ensures result1 ==> result0 == (*h)[0]
 
 //@ func seqNumTxHeap.push
-//@   trusted
-//@   ensures old(ExactSeq(h)) ==> ExactSeq(h)
+//@   props C20
 //@   ensures arrOf(*h) == old(arrOf(*h)) || fresh(arrOf(*h))
 //@   requires tx != nil
 //@   modifies *h, anyOf(tx.seqHeapIndex)
 //@   ensures len(*h) == old(len(*h)) + 1 && InSeq(h, tx)
 //@   ensures forall t TxT :: t != tx ==> (old(InSeq(h, t)) ==> InSeq(h, t))
+//@   requires ExactSeq(h)
+//@   ensures ExactSeq(h)
+//@   requires !InSeq(h, tx)
 
 //@ func seqNumTxHeap.remove
-//@   trusted
+//@   props C20
 //@   ensures forall t TxT :: InSeq(h, t) ==> t != tx && old(InSeq(h, t))
-//@   ensures old(ExactSeq(h)) ==> ExactSeq(h)
 //@   ensures arrOf(*h) == old(arrOf(*h))
 //@   requires tx != nil && InSeq(h, tx)
 //@   modifies *h, anyOf(tx.seqHeapIndex)
 //@   ensures len(*h) == old(len(*h)) - 1 && tx.seqHeapIndex == -1
 //@   ensures forall t TxT :: t != tx ==> (old(InSeq(h, t)) ==> InSeq(h, t))
+//@   requires ExactSeq(h)
+//@   ensures ExactSeq(h)
 
 //@ func seqNumTxHeap.replace
-//@   trusted
-//@   ensures old(ExactSeq(h)) ==> ExactSeq(h)
+//@   props C20
 //@   ensures arrOf(*h) == old(arrOf(*h))
 //@   requires new != nil && old != nil && new != old && InSeq(h, old)
 //@   modifies *h, anyOf(old.seqHeapIndex)
 //@   ensures len(*h) == old(len(*h)) && old.seqHeapIndex == -1 && InSeq(h, new)
 //@   ensures forall t TxT :: t != new && t != old ==> (old(InSeq(h, t)) ==> InSeq(h, t))
+//@   requires ExactSeq(h)
+//@   ensures ExactSeq(h)
+//@   requires !InSeq(h, new)
 
 // ---- per-sender heap ----
 
@@ -158,9 +315,10 @@ package txpool
 
 //@ func senderTxHeap.push
 //@   props C20
-//@   ensures old(ExactSeq(&h.seqHeap)) ==> ExactSeq(&h.seqHeap)
+//@   requires ExactSeq(&h.seqHeap)
+//@   ensures ExactSeq(&h.seqHeap)
 //@   ensures arrOf(h.seqHeap) == old(arrOf(h.seqHeap)) || fresh(arrOf(h.seqHeap))
-//@   requires h != nil && tx != nil && h.txs != nil
+//@   requires h != nil && tx != nil && h.txs != nil && !InSeq(&h.seqHeap, tx)
 //@   modifies h.txs, h.seqHeap, anyOf(tx.seqHeapIndex)
 //@   ensures InSeq(&h.seqHeap, tx) && inDom(h.txs, tx.seq) && h.txs[tx.seq] == tx
 //@   ensures forall q uint64 :: q != tx.seq ==> inDom(h.txs, q) == old(inDom(h.txs, q)) && h.txs[q] == old(h.txs[q])
@@ -170,7 +328,8 @@ package txpool
 //@ func senderTxHeap.remove
 //@   props C20
 //@   ensures forall t TxT :: InSeq(&h.seqHeap, t) ==> t != tx && old(InSeq(&h.seqHeap, t))
-//@   ensures old(ExactSeq(&h.seqHeap)) ==> ExactSeq(&h.seqHeap)
+//@   requires ExactSeq(&h.seqHeap)
+//@   ensures ExactSeq(&h.seqHeap)
 //@   ensures arrOf(h.seqHeap) == old(arrOf(h.seqHeap))
 //@   requires h != nil && tx != nil && InSeq(&h.seqHeap, tx)
 //@   modifies h.txs, h.seqHeap, anyOf(tx.seqHeapIndex)
@@ -181,9 +340,10 @@ package txpool
 
 //@ func senderTxHeap.replace
 //@   props C20
-//@   ensures old(ExactSeq(&h.seqHeap)) ==> ExactSeq(&h.seqHeap)
+//@   requires ExactSeq(&h.seqHeap)
+//@   ensures ExactSeq(&h.seqHeap)
 //@   ensures arrOf(h.seqHeap) == old(arrOf(h.seqHeap))
-//@   requires h != nil && new != nil && old != nil && new != old && InSeq(&h.seqHeap, old) && h.txs != nil
+//@   requires h != nil && new != nil && old != nil && new != old && InSeq(&h.seqHeap, old) && h.txs != nil && !InSeq(&h.seqHeap, new)
 //@   modifies h.txs, h.seqHeap, anyOf(old.seqHeapIndex)
 //@   ensures InSeq(&h.seqHeap, new) && inDom(h.txs, new.seq) && h.txs[new.seq] == new && old.seqHeapIndex == -1
 //@   ensures old.seq != new.seq ==> !inDom(h.txs, old.seq)
@@ -206,7 +366,10 @@ package txpool
 //@   ensures tx.maxHeapIndex == -1 && tx.minHeapIndex == -1 && tx.seqHeapIndex == -1
 //@   ensures arrOf(s.minHeap) == old(arrOf(s.minHeap)) && arrOf(s.maxHeap) == old(arrOf(s.maxHeap)) && arrOf(seqHeap.seqHeap) == old(arrOf(seqHeap.seqHeap))
 //@   ensures seqHeap.seq == old(seqHeap.seq)
-//@   ensures old(ExactSeq(&seqHeap.seqHeap)) ==> ExactSeq(&seqHeap.seqHeap)
+//@   requires ExactSeq(&seqHeap.seqHeap) && ExactMin(&s.minHeap) && ExactMax(&s.maxHeap)
+//@   ensures ExactSeq(&seqHeap.seqHeap)
+//@   ensures ExactMin(&s.minHeap)
+//@   ensures ExactMax(&s.maxHeap)
 //@   ensures forall t TxT :: InSeq(&seqHeap.seqHeap, t) ==> t != tx && old(InSeq(&seqHeap.seqHeap, t))
 //@   ensures !inDom(s.txs, tx.meta.hash)
 //@   ensures forall t TxT :: t != tx ==> Pending(t) == old(Pending(t))
@@ -221,12 +384,13 @@ package txpool
 
 //@ func mainQueueScheduler.forward
 //@   props C20
-//@   requires s != nil && !sameRef(s.scheduled, s.senders)
+//@   requires s != nil && !sameRef(s.scheduled, s.senders) && ExactMin(&s.minHeap) && ExactMax(&s.maxHeap)
 //@   requires inDom(s.senders, sender) ==> s.senders[sender] != nil && ExactSeq(&s.senders[sender].seqHeap) && Disjoint(s, s.senders[sender])
 //@   requires forall t TxT :: inDom(s.senders, sender) && InSeq(&s.senders[sender].seqHeap, t) ==> t != nil && t.meta != nil && TxOK(s, t, s.senders[sender])
 //@   requires forall q uint64 :: inDom(s.senders, sender) && inDom(s.senders[sender].txs, q) ==> s.senders[sender].txs[q] != nil && InSeq(&s.senders[sender].seqHeap, s.senders[sender].txs[q]) && s.senders[sender].txs[q].seq == q && s.senders[sender].txs[q].sender == sender
 //@   ensures old(inDom(s.senders, sender)) && seq > old(s.senders[sender].seq) && !inDom(s.scheduled, sender) && inDom(s.senders, sender) && inDom(s.senders[sender].txs, seq) ==> Pending(s.senders[sender].txs[seq])
 //@   loop 1 invariant seqHeap != nil && seqHeap.seq == seq && ExactSeq(&seqHeap.seqHeap)
+//@   loop 1 invariant ExactMin(&s.minHeap) && ExactMax(&s.maxHeap)
 //@   loop 1 invariant forall t TxT :: InSeq(&seqHeap.seqHeap, t) ==> t != nil && t.meta != nil
 //@   loop 1 invariant forall t TxT :: InSeq(&seqHeap.seqHeap, t) ==> InMin(&s.minHeap, t)
 //@   loop 1 invariant forall t TxT :: InSeq(&seqHeap.seqHeap, t) ==> (Pending(t) ==> InMax(&s.maxHeap, t))
@@ -236,6 +400,7 @@ package txpool
 //@   loop 1 invariant forall q uint64 :: inDom(seqHeap.txs, q) ==> seqHeap.txs[q] != nil && InSeq(&seqHeap.seqHeap, seqHeap.txs[q]) && seqHeap.txs[q].seq == q && seqHeap.txs[q].sender == sender
 //@   loop 1 invariant inDom(s.senders, sender) ==> s.senders[sender] == seqHeap
 //@   loop 1 invariant forall k string :: inDom(s.scheduled, k) == old(inDom(s.scheduled, k))
+//@   ensures ExactMin(&s.minHeap) && ExactMax(&s.maxHeap)
 //@   note the last clause is the property's "always picks the highest-priority ready transaction": a transaction that has become the sender's head must be on the max-heap when no pass is in progress
 
 // ---- reset: restoring the max-heap after a scheduling pass ----
@@ -245,7 +410,8 @@ package txpool
 
 //@ func mainQueueScheduler.restoreMaxHeap
 //@   props C20
-//@   requires s != nil && !sameRef(s.scheduled, s.senders)
+//@   requires s != nil && !sameRef(s.scheduled, s.senders) && ExactMax(&s.maxHeap)
+//@   ensures ExactMax(&s.maxHeap)
 //@   requires inDom(s.senders, sender) ==> SenderHeapOK(s, s.senders[sender], sender) && MinFirst(&s.senders[sender].seqHeap)
 //@   requires inDom(s.senders, sender) ==> (forall q uint64 :: inDom(s.senders[sender].txs, q) && Pending(s.senders[sender].txs[q]) ==> seq != 18446744073709551615 && q == seq + 1)
 //@   requires inDom(s.senders, sender) && seq != 18446744073709551615 && inDom(s.senders[sender].txs, seq + 1) ==> Pending(s.senders[sender].txs[seq + 1])
@@ -256,7 +422,11 @@ package txpool
 //@ func mainQueueScheduler.replace
 //@   props C20
 //@   requires s != nil && new != nil && old != nil && new != old && new.meta != nil && old.meta != nil && s.txs != nil && seqHeap != nil && seqHeap.txs != nil
-//@   requires new.sender == old.sender && new.seq == old.seq && TxOK(s, old, seqHeap) && new.maxHeapIndex == -1
+//@   requires new.sender == old.sender && new.seq == old.seq && TxOK(s, old, seqHeap) && new.maxHeapIndex == -1 && new.minHeapIndex == -1 && new.seqHeapIndex == -1
+//@   requires ExactSeq(&seqHeap.seqHeap) && ExactMin(&s.minHeap) && ExactMax(&s.maxHeap)
+//@   ensures ExactSeq(&seqHeap.seqHeap)
+//@   ensures ExactMin(&s.minHeap)
+//@   ensures ExactMax(&s.maxHeap)
 //@   ensures TxOK(s, new, seqHeap) && InPool(s, new)
 //@   ensures Pending(new) == old(Pending(old))
 //@   ensures old.maxHeapIndex == -1 && old.minHeapIndex == -1 && old.seqHeapIndex == -1
@@ -266,7 +436,9 @@ package txpool
 
 //@ func mainQueueScheduler.add
 //@   props C20
-//@   requires s != nil && tx != nil && tx.meta != nil && s.txs != nil && s.senders != nil && tx.maxHeapIndex == -1
+//@   requires s != nil && tx != nil && tx.meta != nil && s.txs != nil && s.senders != nil && tx.maxHeapIndex == -1 && tx.minHeapIndex == -1 && tx.seqHeapIndex == -1
+//@   requires ExactMin(&s.minHeap) && ExactMax(&s.maxHeap)
+//@   requires inDom(s.senders, tx.sender) ==> ExactSeq(&s.senders[tx.sender].seqHeap)
 //@   requires inDom(s.senders, tx.sender) ==> s.senders[tx.sender] != nil && s.senders[tx.sender].txs != nil
 //@   requires inDom(s.senders, tx.sender) ==> (forall q uint64 :: inDom(s.senders[tx.sender].txs, q) ==> s.senders[tx.sender].txs[q] != nil && s.senders[tx.sender].txs[q] != tx && s.senders[tx.sender].txs[q].meta != nil && s.senders[tx.sender].txs[q].sender == tx.sender && s.senders[tx.sender].txs[q].seq == q && TxOK(s, s.senders[tx.sender].txs[q], s.senders[tx.sender]))
 //@   precall txpool\.senderTxHeap\)\.get$ :: argIs(0, tx.seq) && tx.seq >= seqHeap.seq
